@@ -89,8 +89,10 @@ PROPS = {
             'debug_assert!() and arithmetic overflow unreachable for ALL request parameters (stale, foreign, duplicate cookies and '
             'serials included) in every state that satisfies the invariants; the invariants are preserved by every verified '
             'handler. Handlers not verified (and so not covered): handle_event, handle_message (the dispatch itself), '
-            'process_loop_result, emit_event, emit_bus_event, start_bus_listener, create_channel, claim_channel_end, '
-            'create_bus_listener, sync, query_service_version, query_service_info, the introspection handlers',
+            'process_loop_result, emit_bus_event, and the four introspection handlers of a broker built WITH the introspection '
+            'feature (register_introspection, query_introspection, query_introspection_reply, remove_introspection_conn: they rest '
+            'on invariants of broker/src/introspection.rs that are not modelled); the variants without the feature are verified',
+            'query_service_info expects SerializedValue::serialize(ServiceInfo) to succeed: ASSUMED',
             'hangs: termination of the loops is proved for the for-loops over finite collections (Verus decreases on the '
             'iterator); the broker loop itself (async) is not',
         ],
@@ -158,7 +160,6 @@ PROPS = {
         undecided_clauses=[
             'which reply (ok / duplicate / invalid-object / foreign-object) goes on the wire: replies are outside the state '
             'model; decided instead: the tables change exactly when the bus state says the request is acceptable',
-            'queries (query_service_version / query_service_info: match arms with ref patterns, no state change)',
             'cookie never used before: freshness w.r.t. LIVE cookies is an assumption on the random generator',
         ],
         explanation='registry handlers of broker.rs on their verbatim text: the object tables (cookie->uuid, uuid->Object) and the '
